@@ -67,7 +67,8 @@ def strLt : Str → Str → Bool
   | [], [] => false
   | [], _ :: _ => true
   | _ :: _, [] => false
-  | a :: as, b :: bs => if a = b then strLt as bs else decide (a.toNat < b.toNat)
+  | a :: as, b :: bs =>
+    if a.toNat < b.toNat then true else if b.toNat < a.toNat then false else strLt as bs
 
 def insDesc (x : Str) : List Str → List Str
   | [] => [x]
@@ -289,7 +290,7 @@ structure Ev where
   p : Plan
   out : Outcome
   t : Nat
-  deriving Repr
+  deriving Repr, DecidableEq
 
 def step (cfg : Cfg) (w : World) : Op → World × Option Ev
   | .req r p => ((request cfg w r p).1, some ⟨r, p, (request cfg w r p).2, w.now⟩)
